@@ -50,6 +50,7 @@ def gen(prefix, horizons):
     """ Generate test set """
 
     formulations = ["arc_based", "path_based", "sequence_based"]
+    written = set()
     for t_h in horizons:
         # Define base problem
         mirp = get_mirp(t_h)
@@ -74,6 +75,11 @@ def gen(prefix, horizons):
                 f"number of variables: {n_vars}"
             )
             bname = f"test_{name}_{n_vars}_"
+            if bname in written:
+                # another horizon gave the same number of variables:
+                # do not overwrite its files
+                bname += f"h{t_h}_"
+            written.add(bname)
             bname = os.path.join(prefix, bname)
             QC.export(bname + "o.rudy", as_ising=True)
 
